@@ -491,6 +491,56 @@ def stage1_numbers(run):
             run.disagree({'op': 'intstr', 'v': str(v)}, a, {'out': common.cps(str(v))}, 'intstr')
 
 
+def real_strarray(text):
+    conn, e = compile_mof('Qualifier Q : string[] = {' + text + '}\n, Scope(any);\n')
+    if e is not None:
+        return exc_json(e)
+    v = conn.qualifiers[NS]['Q'].value
+    return {'ok': [common.cps(x) for x in v]}
+
+
+def stage1_arrays(run):
+    """K for the array initializer of strings (model: lexArray/groupToks/stringValueLists) + oracle on the
+    text of the real _value_tomof"""
+    from pywbem import _cim_obj
+    rng = run.rng
+    n = 8000 if run.thorough else 1500
+    texts = []
+    for i in range(n):
+        c = fold_params(rng)
+        if rng.random() < 0.7:
+            k = rng.choice([1, 1, 2, 3, 5, 9])
+            v = [gen_string(rng, rng.choice([0, 1, 3, 8, 20, 40, 70, 150])) for _ in range(k)]
+            m, _ = _cim_obj._value_tomof(v, 'string', c['indent'], c['maxline'], c['pos'], c['es'], c['avoid'])
+            texts.append((m, v, c))
+        else:
+            parts = []
+            for _ in range(rng.choice([1, 2, 3])):
+                parts.append(rng.choice(['', ' ', '\n  ']).join(
+                    '"' + gen_literal_body(rng) + '"' for _ in range(rng.choice([0, 1, 1, 2]))))
+            texts.append((rng.choice([', ', ',', ' ,\n']).join(parts) + rng.choice(['', '', ',']), None, None))
+    ans = common.run_driver(PROP, [{'op': 'strarray', 'text': common.cps(t)} for t, _, _ in texts])
+    for (t, v, c), a in zip(texts, ans):
+        if not t.strip():
+            continue
+        real = real_strarray(t)
+        case = {'op': 'strarray', 'text': t}
+        run.case(case, nontrivial='ok' in real)
+        run.count('strarray:' + real.get('exc', 'ok'))
+        model = {'exc': 'MOFParseError'} if a == {'lex': None} else a
+        if model != real:
+            run.disagree(case, a, real, 'strarray')
+        if v is not None:
+            # oracle: array written by the real _value_tomof, read by the real compiler
+            ocase = {'op': 'value_array', 'v': v, **c}
+            if 'exc' in real:
+                run.violate({'stage': 'string', 'kind': 'recompile_exception', 'exc': real['exc'],
+                             'where': 'value_tomof_array'}, ocase, {'mof': t, 'result': real})
+            elif real['ok'] != [common.cps(x) for x in v]:
+                run.violate({'stage': 'string', 'kind': 'value_differs', 'where': 'value_tomof_array'}, ocase,
+                            {'mof': t, 'compiled': real['ok']})
+
+
 def oracle_string(run, case, mof_text, original, where):
     real = real_strlist(mof_text)
     if 'exc' in real:
@@ -514,7 +564,8 @@ REALS32 = [0.0, 1.0, -1.0, 1.5, -2.25, 0.1, 1e16, 1e-5, 3.4028234663852886e38, 1
 
 
 def gen_name(rng, prefix):
-    return prefix + ''.join(rng.choice('abcXYZ019_') for _ in range(rng.choice([1, 2, 4, 7])))
+    n = prefix + ''.join(rng.choice('abcXYZ019_') for _ in range(rng.choice([1, 2, 4, 7])))
+    return n
 
 
 def gen_text(rng):
@@ -969,11 +1020,37 @@ def classify_compile_failure(obj, r):
     """coarse cause of a compile failure, from the generated text only (for precise known-finding matching)"""
     import re
     mof = r.get('mof') or ''
+    if any(ord(ch) > 127 for n in names_of(obj) for ch in n):
+        return 'non_ascii_identifier'
     if re.search(r'(?<![\w."\'])[+-]?(inf|nan)\b', mof):
         return 'real_inf_nan'
     if re.search(r'(?<![\w."\'.])[+-]?[0-9]+[eE][+-]?[0-9]+', mof):
         return 'real_exponent_without_point'
     return 'other'
+
+
+def names_of(obj):
+    """all identifiers the MOF text of obj contains"""
+    import pywbem
+    out = []
+    if isinstance(obj, pywbem.CIMQualifierDeclaration):
+        return [obj.name]
+    if isinstance(obj, pywbem.CIMInstance):
+        out = [obj.classname] + list(obj.properties.keys())
+        for p in obj.properties.values():
+            vals = p.value if isinstance(p.value, list) else [p.value]
+            for v in vals:
+                if isinstance(v, pywbem.CIMInstance):
+                    out += names_of(v)      # embedded instance: its MOF text is compiled, too
+        return out
+    out += [obj.classname, obj.superclass or ''] + list(obj.qualifiers.keys())
+    for p in obj.properties.values():
+        out += [p.name, p.reference_class or ''] + list(p.qualifiers.keys())
+    for m in obj.methods.values():
+        out += [m.name] + list(m.qualifiers.keys())
+        for a in m.parameters.values():
+            out += [a.name, a.reference_class or ''] + list(a.qualifiers.keys())
+    return out
 
 
 def obj_repr(o):
@@ -1031,6 +1108,25 @@ def stage2(run):
         r, case = check_decl(run, 'qualifierdecl', qd, ml)
         run.case(case, nontrivial=qd.value is not None)
         run.count('decl:qualifierdecl:' + qd.type + ('[]' if qd.is_array else ''))
+    # identifiers with non-ASCII characters (DSP0004: U+0080..U+FFEF): a separate stream of otherwise trivial
+    # objects, so that known finding C08-F3 cannot hide another failure of a rich object
+    import pywbem
+    for _ in range(40 if run.thorough else 12):
+        nm = gen_name(rng, 'N') + rng.choice(['é', '中', 'Ü', 'ß', '€'])
+        k = rng.choice(['qualifierdecl', 'class', 'property', 'instance'])
+        if k == 'qualifierdecl':
+            obj, ctx = pywbem.CIMQualifierDeclaration(nm, 'uint8', value=pywbem.Uint8(1), scopes={'ANY': True}), []
+        elif k == 'class':
+            obj, ctx = pywbem.CIMClass(nm), []
+        elif k == 'property':
+            obj, ctx = pywbem.CIMClass('C_n', properties=[pywbem.CIMProperty(nm, None, type='uint8', class_origin='C_n')]), []
+        else:
+            c = pywbem.CIMClass(nm, properties=[pywbem.CIMProperty('p', None, type='uint8', class_origin=nm)])
+            obj, ctx = pywbem.CIMInstance(nm, properties=[pywbem.CIMProperty('p', pywbem.Uint8(1), class_origin=nm)]), [c]
+        r, case = check_decl(run, 'instance' if k == 'instance' else 'qualifierdecl' if k == 'qualifierdecl' else 'class',
+                             obj, 80, [], ctx)
+        run.case(case, nontrivial=True)
+        run.count('decl:non_ascii_identifier:' + k)
     for _ in range(n_c):
         decls = std_decls(rng)
         base = gen_class(rng, decls, gen_name(rng, 'B_'))
@@ -1081,6 +1177,7 @@ def run(run):
     stage1(run)
     stage1_values(run)
     stage1_numbers(run)
+    stage1_arrays(run)
     stage2(run)
 
 
@@ -1153,6 +1250,13 @@ def replay(payload):
         else:
             r.violate({'stage': 'string', 'kind': 'tomof_exception', 'exc': real['exc'], 'where': 'mofstr'}, case, real)
         shown = real
+    elif case.get('op') == 'value_array':
+        from pywbem import _cim_obj
+        m, _ = _cim_obj._value_tomof(case['v'], 'string', case['indent'], case['maxline'], case['pos'], case['es'],
+                                     case['avoid'])
+        shown = real_strarray(m)
+        if 'exc' in shown or shown['ok'] != [common.cps(x) for x in case['v']]:
+            r.violate({'stage': 'string', 'kind': 'value_differs', 'where': 'value_tomof_array'}, case, shown)
     elif case.get('op') == 'decl':
         obj = obj_load(case['obj'])
         decls = [obj_load(x) for x in case['decls']]
